@@ -67,23 +67,30 @@ CLAIMED = {
         technique="Coq proof (index-bound invariants on checked-access kernel models) + ASan/canary correspondence",
     ),
     "C01": dict(
-        category="other",
-        text=("Executable Coq model of the indexing pipeline (gather, stable sort, boundary encoding, per-batch concat) "
-              "and of termfreqs (popcount reduce + 10-unrolled scatter) compared three-way with the real SearchArray and "
-              "the spec `count of the term per document`; the composition theorem is in progress (its ingredients — codec "
-              "counts, reduction and scatter kernels — are proved)."),
+        category="proof",
+        text=("Theorem C01_termfreqs_is_count (Props/C01.v, closed under the global context): for every corpus within the "
+              "limits (documents <= 262143 tokens, < 2^28 rows), EVERY batch size, every term present or absent, the "
+              "model of SearchArray.index succeeds and termfreqs returns the per-document count of the term, one entry "
+              "per row. The model covers gather, sort by (term, doc, posn), boundary encoding (galloping merge/intersect "
+              "kernels), per-batch postings and concat, popcount reduce and the 10-unrolled scatter. The check compares "
+              "the real termfreqs with the extracted model and spec over row counts in every residue mod 10, batch sizes, "
+              "workers and tokenizers."),
         design_ref="DESIGN.md 7 (C01)",
-        note=COMMON_NOTE + "Until the composition theorem closes the level is `other` (validated model, proved ingredients).",
-        technique="Coq model + proved kernel/codec lemmas + three-way correspondence",
+        note=COMMON_NOTE + "Tokenizer output is the model's input (token ids by any injection); pandas/numpy glue and "
+             "thread scheduling are exercised, not modelled. No axioms.",
+        technique="Coq proof (composition of codec, kernel and sorting lemmas) + three-way correspondence",
     ),
     "C02": dict(
-        category="other",
-        text=("Executable Coq model of _compute_doc_lens (diff trick + last-document rule), batching and docfreq (shifted "
-              "unique) compared three-way with the real docfreq / doclengths / avg_doc_length (float32 bit pattern vs "
-              "correctly rounded total/n) / corpus_size; composition theorem in progress."),
+        category="proof",
+        text=("Theorems C02_docfreq_is_count and C02_lengths_and_statistics (Props/C02.v, closed): for every corpus within "
+              "the limits and every batch size, docfreq is the number of documents containing the term (0 if unknown), "
+              "doclengths is the list of token counts (0 for empty documents, wherever they fall relative to batch "
+              "boundaries), corpus_size the number of rows and the total behind the average the sum of lengths. "
+              "avg_doc_length as a float32 is checked against the correctly rounded total/n by the correspondence "
+              "check (not proved)."),
         design_ref="DESIGN.md 7 (C02)",
-        note=COMMON_NOTE + "np.mean of a float32 vector equals the correctly rounded exact mean while totals < 2^24 (validated).",
-        technique="Coq model + proved kernel/codec lemmas + three-way correspondence",
+        note=COMMON_NOTE + "np.mean over float32 = correctly rounded exact mean while totals < 2^24 (validated, not proved). No axioms.",
+        technique="Coq proof (diff-trick invariant, unique-keys lemma, batching lemma) + three-way correspondence",
     ),
     "C03": dict(
         category="other",
@@ -96,36 +103,42 @@ CLAIMED = {
         technique="Coq model + three-way correspondence (proof of the bigram step in progress)",
     ),
     "C05": dict(
-        category="other",
-        text=("Executable Coq model of positions() (slice by row keys through the galloping intersect, bitwise decode, "
-              "per-row assembly) compared three-way with the real positions() and the spec `offsets of the term`; the "
-              "codec round trip it rests on is proved (C13)."),
+        category="proof",
+        text=("Theorem C05_positions_are_offsets (Props/C05.v, closed): for every corpus within the limits, every batch size "
+              "and every term of the corpus, positions() of the model returns for each row exactly the ascending offsets "
+              "of the term (empty where absent), through slice-by-keys, bitwise decode and the per-row assembly; an unknown "
+              "term raises TermMissingError. Check = real positions() vs model vs spec around every multiple of 18."),
         design_ref="DESIGN.md 7 (C05)",
-        note=COMMON_NOTE + "Composition theorem in progress.",
-        technique="Coq model + proved codec round trip + three-way correspondence",
+        note=COMMON_NOTE + "Offsets near 262143 are covered by the codec theorem (C13) and its check; no axioms.",
+        technique="Coq proof (codec round trip + slice lemma + assembly) + three-way correspondence",
     ),
 
     "C04": dict(
-        category="other",
-        text=("Bit-exact Flocq binary32 model of the BM25 kernel (incl. the (float)(1.0-(double)b) step and the tf==0 guard) "
-              "composed with the index model's statistics; scores compared as float32 bit patterns with the real score(), "
-              "and against a float64 evaluation of the formula on the spec's statistics (1e-5 relative, exact zero pattern, "
-              "finite); a recording similarity checks the statistics handed over. Theorems (zero pattern, finiteness, "
-              "legacy = (k1+1) * modern over R, idf > 0) are being added to Props/C04.v."),
+        category="proof",
+        text=("Theorems (Props/C04.v) about the bit-exact Flocq binary32 model of the kernel: tf = 0 scores exactly 0 for ALL "
+              "parameters; avg = 0 gives zeros; every score is finite for integer tf/len up to 2^18, avg >= 2^-10, "
+              "0 <= k1 <= 128, 0 <= b <= 1; relative error <= 2^-17 w.r.t. the real formula on an explicit box (partial: "
+              "the property's all-k1/b claim cannot hold at a fixed tolerance); over R: legacy = (k1+1) * modern, positive "
+              "denominator, idf > 0. The check compares real score() bit patterns with the model, and with a float64 "
+              "evaluation on the spec's statistics; a recording similarity checks the statistics handed over."),
         design_ref="DESIGN.md 7 (C04)",
-        note=COMMON_NOTE + "numpy log (idf) is an input; IEEE-754 conformance of the CPU; accuracy bound not proved.",
-        technique="Flocq binary32 model + three-way correspondence (proofs over binary32 and R in progress)",
+        note=COMMON_NOTE + "Axioms (via Flocq/Reals): ClassicalDedekindReals.sig_forall_dec, sig_not_dec, "
+             "FunctionalExtensionality.functional_extensionality_dep, Classical_Prop.classic. numpy log (idf) is an input; "
+             "IEEE-754 conformance of the CPU (no FMA contraction) assumed.",
+        technique="Coq proof over Flocq binary32 and R + bit-exact correspondence",
     ),
     "C08": dict(
-        category="other",
-        text=("The batched indexing pipeline (batches_of, per-batch build with doc-id offset, per-term concatenate+sort, "
-              "length concatenation) is part of the Coq model; the check builds the real index under batch sizes 1..n+1, "
-              "1..8 workers, FORCED completion orders of the futures, tiny switch intervals, GIL-yielding tokenizers, "
-              "cache/autowarm/avoid_copies/data_dir settings and compares every answer with the single-batch index, the "
-              "model and the spec. Batch-independence theorem in progress; real thread interleavings are not modelled."),
+        category="proof",
+        text=("Theorem C08_batch_size_irrelevant (Props/C08.v, closed): any two batch sizes give the same per-term postings, "
+              "document lengths and dictionary, and indexing succeeds for every batch size within the limits; so every "
+              "answer is batch-independent (C01/C02/C05 are stated for all batch sizes). PARTIAL for schedules: thread "
+              "interleavings, completion orders, caches, memory-mapping are not in the theorem; the check builds the real "
+              "index under batch sizes 1..n+1, 1..8 workers, FORCED completion orders, tiny switch intervals, GIL-yielding "
+              "tokenizers, cache/autowarm/avoid_copies/data_dir settings and compares every answer with the single-batch "
+              "index, the model and the spec."),
         design_ref="DESIGN.md 7 (C08)",
-        note=COMMON_NOTE + "TermDict.add_term assumed atomic under the GIL; ThreadPoolExecutor not modelled.",
-        technique="Coq model of batching + forced-schedule differential check",
+        note=COMMON_NOTE + "TermDict.add_term assumed atomic under the GIL; ThreadPoolExecutor not modelled. No axioms.",
+        technique="Coq proof (encode_spec append lemma, sorted concat) + forced-schedule differential check",
     ),
     "C16": dict(
         category="other",
@@ -135,6 +148,47 @@ CLAIMED = {
         design_ref="DESIGN.md 7 (C16)",
         note=COMMON_NOTE + "Theorem (filter = bucket range) in progress.",
         technique="Coq model + three-way correspondence",
+    ),
+
+    "C06": dict(
+        category="other",
+        text=("Coq model of views (rows-vector composition, FilteredPosns / physical slice handle, unique-id filtering, "
+              "dense gather, positions fill path, root document frequencies, inherited statistics) compared three-way with "
+              "the real arr[key] / take / copy / DataFrame ops followed by every query kind, against the spec `parent answer "
+              "re-indexed by the composed key with parent statistics`; keys: slices of every step sign, masks, int arrays "
+              "sorted/unsorted/duplicate/negative, depth 1..3, both avoid_copies. Commutation theorem in progress."),
+        design_ref="DESIGN.md 7 (C06)",
+        note=COMMON_NOTE + "pandas key normalisation replicated with numpy in the harness.",
+        technique="Coq model + three-way correspondence (commutation proof in progress)",
+    ),
+    "C07": dict(
+        category="other",
+        text=("Cache-aware Coq state machine (docfreq / termfreq / filtered-postings caches, the filter reset of a sliced "
+              "view's parent) run on random operation sequences over a pool of arrays and compared op by op with the real "
+              "objects; additionally every query is repeated at the end, re-asked under a different history, and every "
+              "array returned earlier is checked unmodified. Theorem `every output equals the history-free answer under the "
+              "cache invariant` in progress."),
+        design_ref="DESIGN.md 7 (C07)",
+        note=COMMON_NOTE + "pickle round trips are mapped to copy in the state machine.",
+        technique="Coq state machine + op-sequence correspondence (invariant proof in progress)",
+    ),
+    "C09": dict(
+        category="other",
+        text=("Coq model of edismax's query-field combination (term-/field-centric choice, running max and sum, tie, mm "
+              "filter, boosts as float32 products) over exact rationals on top of the binary32 BM25 model, compared "
+              "three-way with the real edismax and the declarative DisMax+mm spec (1e-6 relative, exact zero pattern)."),
+        design_ref="DESIGN.md 7 (C09)",
+        note=COMMON_NOTE + "numpy's float64/float32 combination arithmetic is modelled exactly over Q.",
+        technique="Coq model over Q + three-way correspondence (algebraic proof in progress)",
+    ),
+    "C10": dict(
+        category="other",
+        text=("Coq model of the pf / pf2 / pf3 phases on the view of rows with positive query-field score (shingles, boosts, "
+              "scatter-add at matching rows) compared three-way with the real edismax and the spec `query-field score plus "
+              "boost * whole-frame phrase scores, each shingle once, zero stays zero`."),
+        design_ref="DESIGN.md 7 (C10)",
+        note=COMMON_NOTE + "Relies on view scores using whole-frame statistics (C06).",
+        technique="Coq model over Q + three-way correspondence",
     ),
 }
 
